@@ -20,6 +20,7 @@ EXPLANATION_ADDED = 'R1 also orders the source dispatch before the drain; R2 req
 EXPLANATION_ADDED2 = ' (R8) ack-failure-stops-handoff (why the accept queue cannot hold up the wind-down); (R9) Close/Ping/Pong/Binary classification, dispatcher call-site constants, the wind-down dispatches what it takes from the source; R1 also requires the dropped-flows queue to be closed. (R10) a write refused because the stream is closed maps to Err(BrokenPipe) in every io-level write entry point (poll_write, poll_write_vectored, the bridge), never to Ok(n).'
 EXPLANATION = EXPLANATION + " Added while testing against seeded changes: " + EXPLANATION_ADDED + EXPLANATION_ADDED2
 EXPLANATION = EXPLANATION + " Round 10: R5 also requires the converted error to be propagated; (R11) outside the wind-down every error of the WebSocket sink / source is propagated with `?` up to the future polled by the task's select."
+EXPLANATION = EXPLANATION + " Rounds 12-13: R9 also requires that a dispatch error does not end the wind-down's loop over the buffered messages (leaving on the peer's Close is fine)."
 ASSUMPTIONS = ["poll_fn closures are polled by the await that follows their creation",
                "tokio mpsc close()/recv() semantics (clean shutdown) as documented"]
 NOT_DECIDED = "completion of operations racing with teardown; enumeration of cut points; timing"
